@@ -192,6 +192,8 @@ def run_impl(case):
 
   def worker(tid):
     obs = []
+    fobs = []            # what the handle fetched at the previous observation point receives here
+    handle = [None]
     outcome = 'normal'
 
     def run(items):
@@ -206,6 +208,11 @@ def run_impl(case):
         if it['k'] == 'obs':
           x = f()
           obs.append([list(gin.current_scope()), None if x == -1 else encode(x, gin)])
+          if handle[0] is not None:
+            fx = handle[0]()
+            fobs.append(None if fx == -1 else encode(fx, gin))
+          # get_configurable captures the scope active now (by selector string or by function object)
+          handle[0] = gin.get_configurable('pm.f' if len(obs) % 2 else f)
         elif it['k'] == 'raise':
           raise (Interrupt() if it.get('base') else Boom())
         else:
@@ -224,7 +231,7 @@ def run_impl(case):
         depth = len(gin.config._SCOPE_MANAGER.active_scopes)  # pylint: disable=protected-access
       except Exception:  # pylint: disable=broad-except
         depth = None
-      results[tid] = {'obs': obs, 'top': list(gin.current_scope()), 'depth': depth, 'outcome': outcome,
+      results[tid] = {'obs': obs, 'fobs': fobs, 'top': list(gin.current_scope()), 'depth': depth, 'outcome': outcome,
                       'scope_str': gin.current_scope_str()}
     except BaseException as e:  # pylint: disable=broad-except
       results[tid] = {'crash': core.err_class(e) + ': ' + str(e)}
@@ -257,6 +264,10 @@ def compare(case, impl, model):
       return f'thread {tid}: model did not finish under this schedule (harness schedule too short)'
     if a['obs'] != b['obs']:
       return f'thread {tid}: observations impl {a["obs"]} model {b["obs"]}'
+    want = expected_fetched(b['obs'])
+    if a.get('fobs', want) != want:
+      return (f'thread {tid}: configurables fetched with get_configurable at each observation point and called at the next '
+              f'received {a["fobs"]}; the scopes captured at fetch time give {want}')
     if a['top'] != b['top'] or (a['depth'] is not None and a['depth'] != b['depth']):
       return f'thread {tid}: final scope impl {a["top"]} depth {a["depth"]}; model {b["top"]} depth {b["depth"]}'
     t = model['tree'][tid]
@@ -265,6 +276,12 @@ def compare(case, impl, model):
   if impl['main_scope'] != []:
     return f'main thread scope changed: {impl["main_scope"]}'
   return None
+
+
+def expected_fetched(obs):
+  """A handle fetched under a non-empty scope runs in that scope wherever it is called; fetched at top
+  level it is the plain configurable and runs in the caller's scope."""
+  return [(obs[i - 1][1] if obs[i - 1][0] else obs[i][1]) for i in range(1, len(obs))]
 
 
 # ------------------------------------------------------------------ independent oracle
@@ -312,6 +329,9 @@ def oracle(case, impl):
     ok = naive(prog, [], binds, obs)
     if got['obs'] != obs:
       return f'thread {tid}: alone it observes {obs}, under the schedule it observed {got["obs"]}'
+    if got.get('fobs') != expected_fetched(obs):
+      return (f'thread {tid}: a configurable fetched under one scope and called under another does not run in the scope '
+              f'captured at fetch time: received {got.get("fobs")}, expected {expected_fetched(obs)}')
     if got['top'] != [] or got['scope_str'] != '':
       return f'thread {tid}: active scope after all blocks is {got["top"]} (outcome {got["outcome"]}), expected []'
     if (got['outcome'] == 'raised') != (not ok):
